@@ -191,7 +191,13 @@ Definition step (s : st) (e : ev) : st :=
             match r_kind r with
             | RDone => updop o (fun c => c <| o_taken ::= S |> <| o_res := Some r |> <| o_rx := false |> <| o_call := None |>
                                             <| o_status := match o_kind c with KSearch ad => if ad || fix7 (fx s) then SDone else SActive | _ => SActive end |>) s
-            | _ => updop o (fun c => c <| o_taken ::= S |> <| o_got ::= fun l => l ++ [r] |> <| o_call := None |>) s
+            | REntry => updop o (fun c => c <| o_taken ::= S |> <| o_got ::= fun l => l ++ [r] |> <| o_call := None |>) s
+            | _ =>
+                (* a reference or an intermediate message: a direct stream hands it over; behind EntriesOnly the adapter's loop takes it
+                   (collecting reference URIs) and calls next() again - a new call of the inner stream, whose item timer starts now *)
+                match o_kind c with
+                | KSearch true => updop o (fun c => c <| o_taken ::= S |> <| o_call := Some (now s) |>) s
+                | _ => updop o (fun c => c <| o_taken ::= S |> <| o_got ::= fun l => l ++ [r] |> <| o_call := None |>) s end
             end
         | None =>
             if negb (o_chan c) then updop o (fun c => c <| o_status := SError |> <| o_rx := false |> <| o_call := None |>) s   (* EndOfStream *)
